@@ -184,7 +184,7 @@ pub static C05: Profile = Profile {
     raw,
     build: c05_build,
     check: c05_check,
-    budget: Budget { r_cases: (1500, 20000), s_cases: (2000, 10000), s_scheds: (16, 64) },
+    budget: Budget { r_cases: (3000, 20000), s_cases: (4000, 10000), s_scheds: (16, 64) },
     liveness: true,
     enumerate: None,
     extra: None,
@@ -391,7 +391,7 @@ pub static C06: Profile = Profile {
     raw,
     build: c06_build,
     check: c06_check,
-    budget: Budget { r_cases: (2000, 30000), s_cases: (2000, 10000), s_scheds: (16, 64) },
+    budget: Budget { r_cases: (4000, 30000), s_cases: (4000, 10000), s_scheds: (16, 64) },
     liveness: true,
     enumerate: None,
     extra: None,
